@@ -55,6 +55,7 @@ def install_all(reg):
     algorithms.install_target(reg)
     algorithms.install_dfs(reg)
     algorithms.install_minimal(reg)
+    algorithms.install_attractor_seeds(reg)
     algorithms.install_wrappers(reg)
     algorithms.install_reports(reg)
 
